@@ -219,6 +219,12 @@ MUTANTS = [
     ("M92-hexdump-span-short", M, lit("bytes(static_cast<uint8_t const*>(begin), size);", "bytes(static_cast<uint8_t const*>(begin), size - 1);"), ["C18"], ["C18.d"], "printing"),
     ("M93-hexdump-signed-read", M, lit("mini_span<uint8_t const> bytes(static_cast<uint8_t const*>(begin), size);", "mini_span<signed char const> bytes(static_cast<signed char const*>(begin), size);"), ["C18"], ["C18.d.bytes"], "printing"),
     ("M94-mini-span-end-short", M, lit("end_(address + size)", "end_(address + size - 1)"), ["C18"], ["C18.d"], "printing"),
+    ("M96-global-mutex-thread-local", M, lit("static auto mutex = new (&buffer) std::recursive_mutex;", "static thread_local auto mutex = new std::recursive_mutex;"), ["C12"], ["C12.d.global"], "core"),
+    ("M97-reporter-thread-local", M, lit("static reporter_func obj = default_reporter;", "static thread_local reporter_func obj = default_reporter;"), ["C16"], ["C16.c.global"], "core"),
+    ("M98-tracer-pointer-thread-local", M, lit("static tracer* ptr = nullptr;", "static thread_local tracer* ptr = nullptr;"), ["C17"], ["C17.d.global"], "core"),
+    ("M99-forbidden-report-prints-expectation", M, lit("report_forbidden_call(name, loc, params_string(params));", "report_forbidden_call(name, loc, params_string(val));"), ["C15"], ["C15.d.actual"], "core"),
+    ("M100-stream-params-mislabelled", M, lit("missed_value(os, I, std::get<I>(t))", "missed_value(os, 0, std::get<I>(t))"), ["C15"], ["C15.d.every"], "core"),
+    ("M101-collection-element-by-decayed-value", M, lit("using element_type = decltype(*std::begin(t));", "using element_type = detail::decay_t<decltype(*std::begin(t))>;"), ["C18"], ["C18.a.nested"], "printing"),
     ("M95-forwarded-coroutine-temporary-list", CO, lit('    {\n      using coro_type = return_of_t<Sig>;\n      using promise_type = typename std::coroutine_traits<coro_type>::promise_type;\n      using value_type = coro_value_type_t<coro_type>;\n      if constexpr (requires {std::declval<promise_type&>().yield_value(std::declval<value_type>());})\n      {\n        for (auto & e : *yields)\n        {\n          co_yield e.expr(params);\n        }\n      }\n      co_return func(params);\n    }\n  private:', '    {\n      return run(func, yields, params);\n    }\n  private:\n    static\n    return_of_t<Sig>\n    run(\n      T& f,\n      const std::shared_ptr<const yield_expr_list<Sig>>& exprs,\n      call_params_type_t<Sig>& params)\n    {\n      using coro_type = return_of_t<Sig>;\n      using promise_type = typename std::coroutine_traits<coro_type>::promise_type;\n      using value_type = coro_value_type_t<coro_type>;\n      if constexpr (requires {std::declval<promise_type&>().yield_value(std::declval<value_type>());})\n      {\n        for (auto & e : *exprs)\n        {\n          co_yield e.expr(params);\n        }\n      }\n      co_return f(params);\n    }'), ["C20"], ["C14.f"], "coro"),
 ]
 
